@@ -8,6 +8,7 @@ import Continuum.Rel
 import Continuum.Mgr
 import Continuum.Lemmas.UowLive
 import Continuum.Spec.Links
+import Continuum.Activity
 
 /-!
 # Line-protocol driver
@@ -42,6 +43,9 @@ structure DState where
   schIn : Option Schema.TblIn := none
   arows : List ARow := []
   mgr : Mgr := {}
+  actV : VTable TKey := []
+  actBefore : List Act := []
+  actAfter : List Act := []
   segLinks : List Link := []      -- live links at the last boundary (implementation, by SQL)
   pendLinks : List Link := []
   mLinks : List Link := []        -- the same for the model's segment
@@ -174,6 +178,21 @@ def parseAns (s : String) : Option (List (Key × Nat)) := parseSemi parseAns1 s
 def showAns (l : List (Key × Nat)) : String := semi (l.map (fun a => s!"{showKey a.1}:{a.2}"))
 
 def pickTable (st : DState) (w : String) : VTable Key := if w == "t2" then st.t2 else st.t
+
+
+/-! ## activity level (C18) -/
+
+def parseOTKey (s : String) : Option (Option TKey) :=
+  if s == "N" then some none else
+  match s.splitOn ":" with
+  | [t, k] => do pure (some ((← parseNat t), (← parseKey k)))
+  | _ => none
+
+def parseAct : List String → Option Act
+  | [id, obj, tgt, tx, otx, ttx] => do
+    pure { id := (← parseNat id), obj := (← parseOTKey obj), tgt := (← parseOTKey tgt), tx := (← parseONat tx),
+           objTx := (← parseONat otx), tgtTx := (← parseONat ttx) }
+  | _ => none
 
 def bad : Option String := some "bad-op"
 
@@ -359,6 +378,26 @@ def handle (st : DState) (toks : List String) : DState × Option String :=
     | some conn =>
       let scm := semi (st.mgr.scm.map (fun (p : Nat × Nat) => s!"{p.1}:{p.2}"))
       (st, some s!"{showModelDump (st.mgr.get conn)} | {scm} | {showNats st.mgr.liveUows}")
+    | none => (st, bad)
+  | "actv" :: tid :: rest =>
+    match parseNat tid, parseRow rest with
+    | some tid, some r =>
+      let r' : VRow TKey := { key := (tid, r.key), tx := r.tx, endTx := r.endTx, op := r.op, vals := r.vals, mods := r.mods }
+      ({ st with actV := st.actV ++ [r'] }, none)
+    | _, _ => (st, bad)
+  | "actb" :: rest =>
+    match parseAct rest with
+    | some a => ({ st with actBefore := st.actBefore ++ [a] }, none)
+    | none => (st, bad)
+  | "acta" :: rest =>
+    match parseAct rest with
+    | some a => ({ st with actAfter := st.actAfter ++ [a] }, none)
+    | none => (st, bad)
+  | ["q18", T] =>
+    match parseNat T with
+    | some T =>
+      let r := decideB (C18.Holds st.actV T st.actBefore st.actAfter)
+      ({ st with actV := [], actBefore := [], actAfter := [] }, some r)
     | none => (st, bad)
   | ["q08", k, vs, idx, nxt, prv] =>
     match parseKey k, parseNats vs, parseNats idx, parseONats nxt, parseONats prv with
